@@ -146,6 +146,10 @@ package api
 //@   note assumed: call counter / call log (ghost bookkeeping only); plugin frame; the registered PreJobAllocationFns (topology) do not touch the job's pod sets / tasks
 //@ end
 
+// snapshotStamp(): the number of decisions emitted to the cache (framework.emitted()) at the moment the last
+// job-solution-start hook ran, i.e. the committed state its snapshot describes (ghost bookkeeping only; requested by
+// helper exec2 for C07)
+//@ ghost snapshotStamp() int
 //@ ghost jobSolutionStartCalls() int
 //@ ghost jobSolutionStartAt(k int) ref
 //@ func type:OnJobSolutionStartFn
@@ -153,6 +157,7 @@ package api
 //@   ensures [assumed] jobSolutionStartCalls() == old(jobSolutionStartCalls()) + 1 && jobSolutionStartAt(jobSolutionStartCalls()) == fn
 //@   ensures [assumed] forall k int :: k <= old(jobSolutionStartCalls()) ==> jobSolutionStartAt(k) == old(jobSolutionStartAt(k))
 //@   ensures [assumed] framework.pluginFrame() && framework.skeletonFrame() && framework.solutionStartHooksSame()
+//@   ensures [assumed] snapshotStamp() == framework.emitted()
 //@   note assumed: call counter / call log (ghost bookkeeping only); plugin frame; a job-solution-start hook leaves the session skeleton alone and registers no further hook (for this func() type the `stable` check cannot succeed)
 //@ end
 
